@@ -165,6 +165,23 @@ func buildModule(n string, g Graph) *hs.Module {
 		f.Body.Stmts = append(f.Body.Stmts, say(sl("a singleton"), hs.Member{X: id("sg", st), Name: "n", T: hs.TInt}))
 	}
 	m.Fns = append(m.Fns, helper, helperN, f)
+	// "... even when other modules define functions or globals with the same names": every module also
+	// defines PRIVATE items named like the pub items of each module it does not import from. They are
+	// never used; a linker that resolves an import by bare name can pick them up.
+	linked := map[string]bool{n: true}
+	for _, e := range g.Edges {
+		if e.From == n {
+			linked[e.To] = true
+		}
+	}
+	for _, o := range append([]string{"main"}, g.Mods...) {
+		if linked[o] {
+			continue
+		}
+		m.Globals = append(m.Globals, hs.Global{Name: "gx_" + o, X: hs.IntLit{V: -(b*100 + base[o])}})
+		m.Fns = append(m.Fns, hs.FnDef{Name: "f_" + o, Ret: hs.TInt, Body: &hs.Block{T: hs.TInt,
+			Stmts: []hs.Stmt{say(sl(n + " private look-alike of f_" + o))}, Tail: hs.IntLit{V: -(b*100 + base[o])}}})
+	}
 	if n == "main" {
 		mb := &hs.Block{T: hs.TNull}
 		mb.Stmts = append(mb.Stmts, say(sl("main start"), id("x", hs.TInt), hs.Call{Fn: hs.Ident{Name: "helper", T: hs.TFn(hs.TInt)}, T: hs.TInt}))
